@@ -83,7 +83,8 @@ def r05_1_operand_typing(ctx):
                         ctx.bad("R05.1", construct, f"operand {o.text} of '{S.teal_name(op)}' (pops {pop}) is never constrained by require_type on the path from {site.construct}", site.where)
                         continue
                     if lits:
-                        ok = all(compatible(r, pop) for r in lits)
+                        # the operand must satisfy every require_type on the path: one that implies the pop type suffices
+                        ok = any(compatible(r, pop) for r in lits)
                         ctx.check(ok, "R05.1", construct, f"operand {o.text} is required to be {lits} but '{S.teal_name(op)}' pops {pop}", site.where, fact={"operand": o.text, "required": lits, "pop": pop})
                     else:
                         # a type computed from another operand (Eq: right.type_of()); accepted where the op takes any
@@ -612,6 +613,66 @@ def r05_10_constructs_by_construction(ctx):
     ctx.require_min("R05.10", 200)
 
 
+def r05_11_op_factories_by_construction(ctx):
+    from sa.lowerworld import World
+    from spec import avm
+
+    ctx.rule("R05.11", "an operator expression is only ever built over operands the op can take: every factory function of the unary / binary / ternary / n-ary operator modules, called with operands of each type in each position (and with no operand leaving a value at all), lets them reach the emitted op (construction and lowering together) only if every operand leaves a value of a type the AVM op pops there - also where the type demanded of one operand is computed from another (Eq, Neq)")
+    S = get_sites(ctx.model)
+    LET = {"u": "uint64", "b": "bytes", "a": "anytype"}
+    T = ["uint64", "bytes", "none", "anytype"]
+    n_funcs = 0
+    for modname in ("pyteal.ast.unaryexpr", "pyteal.ast.binaryexpr", "pyteal.ast.ternaryexpr", "pyteal.ast.naryexpr"):
+        mod = ctx.model.module(modname)
+        for f in mod.all_funcs:
+            if f.cls is not None or f.name.startswith("_"):
+                continue
+            a = f.node.args
+            if a.kwonlyargs or a.kwarg or a.defaults:
+                continue
+            ks = (2, 3) if a.vararg and not a.args else ((len(a.args),) if not a.vararg and a.args else ())
+            for k in ks:
+                # the accepted base vector comes from the op the factory builds: probe with uint64 / bytes operands
+                base = None
+                for cand in itertools.product(["uint64", "bytes"], repeat=k):
+                    W = World(ctx.model, real_exprs=True)
+                    try:
+                        obj = W.call(f.name, [W.child(f"x{i}", t) for i, t in enumerate(cand)])
+                    except (Raised, AnalysisError):
+                        continue
+                    opv = obj.attrs.get("op") if isinstance(obj, Sym) else None
+                    opname = getattr(opv, "name", None)
+                    if opname:
+                        base = (list(cand), opname.split(".")[-1])
+                        break
+                if base is None:
+                    ctx.uncheck(f"{f.qualname}/{k}: no operator expression is built from uint64 / bytes operands")
+                    continue
+                vec, member = base
+                sig = S.sig(member)
+                if sig is None or (len(sig["pops"]) != k and not a.vararg):
+                    ctx.uncheck(f"{f.qualname}/{k}: op {member} has no fixed signature of {k} operands")
+                    continue
+                pops = sig["pops"] if not a.vararg else [sig["pops"][0]] * k
+                n_funcs += 1
+                ctx.analysed(f.fq)
+                vectors = [vec[:i] + [t] + vec[i + 1:] for i in range(k) for t in T] + [["none"] * k, ["anytype"] * k]
+                for ts in vectors:
+                    W = World(ctx.model, real_exprs=True)
+                    try:
+                        built = W.call(f.name, [W.child(f"x{i}", t) for i, t in enumerate(ts)])
+                        # accepted = can be built and lowered (a check may sit in either place)
+                        if isinstance(built, Sym) and "__teal__" in built.methods:
+                            built.methods["__teal__"](W.options(10))
+                        accepted = True
+                    except Raised:
+                        accepted = False
+                    legal = all(t != "none" and ref_require_ok(t, LET[p]) for t, p in zip(ts, pops))
+                    ctx.check((not accepted) or legal, "R05.11", f"{f.name}({', '.join(ts)})", f"{f.name} accepts operands of types {ts}; `{S.teal_name(member)}` pops {[LET[p] for p in pops]}, so {'an operand that leaves nothing' if 'none' in ts else 'an operand of the wrong type'} reaches the op", f.where, fact={"accepted": accepted})
+    q.need(n_funcs >= 40, f"only {n_funcs} operator factories could be exercised")
+    ctx.require_min("R05.11", 400)
+
+
 def run(ctx):  # noqa: F811
     r05_1_operand_typing(ctx)
     r05_1b_lowered_params(ctx)
@@ -621,6 +682,7 @@ def run(ctx):  # noqa: F811
     r05_8_param_accessors(ctx)
     r05_9_if_chains(ctx)
     r05_10_constructs_by_construction(ctx)
+    r05_11_op_factories_by_construction(ctx)
     r05_6_type_relation(ctx)
     from rules import c02 as _c02, c03 as _c03
 
